@@ -632,7 +632,13 @@ class Emitter:
                 fields = ['uint8_t _empty[0];']
             self.agg_defs.append('struct %s { %s }%s;' % (name, ' '.join(fields), packed))
         elif r[0] in ('array', 'vector'):
-            self.agg_defs.append('struct %s { %s };' % (name, self.cfield(r[2], 'a', r[1])))
+            # arrays of arrays of scalars are emitted flat ([4 x [8 x i8]] -> a[32]): all accesses are byte offsets, and CBMC resolves a
+            # byte-offset store into a nested array to an out-of-range index of the INNER array (observed: buf[1][0] became buf[0].a[8])
+            cnt, el = r[1], r[2]
+            while self.L.resolve(el)[0] == 'array' and self.L.resolve(self.L.resolve(el)[2])[0] in ('int', 'ptr', 'array'):
+                cnt *= self.L.resolve(el)[1]
+                el = self.L.resolve(el)[2]
+            self.agg_defs.append('struct %s { %s };' % (name, self.cfield(el, 'a', cnt)))
         else:
             raise ValueError(r)
         return 'struct ' + name
@@ -665,6 +671,8 @@ class Emitter:
         if k == 'cstr':
             return '{{' + ','.join(str(b) for b in v[1]) + '}}'
         if k == 'carray' or k == 'cvector':
+            if v[1] and r[0] == 'array' and self.L.resolve(r[2])[0] == 'array' and self.L.resolve(self.L.resolve(r[2])[2])[0] in ('int', 'ptr', 'array'):
+                return '{{' + ','.join(self.flat_items(r, v)) + '}}'     # nested arrays are emitted flat (see aggtype)
             return '{{' + ','.join(self.const_init(et, ev) for et, ev in v[1]) + '}}' if v[1] else '{0}'
         if k == 'cstruct':
             if ty in getattr(self, 'union_types', ()):
@@ -679,6 +687,22 @@ class Emitter:
         if k == 'cexpr':
             return self.cexpr(v)
         raise ValueError('const_init %r' % (v,))
+
+    def flat_items(self, ty, v):
+        """scalar initialisers of a (nested) array constant, row-major"""
+        r = self.L.resolve(ty)
+        if r[0] != 'array':
+            return [self.const_init(ty, v)]
+        n, el = r[1], r[2]
+        if v[0] in ('zero', 'undef'):
+            sub = self.flat_items(el, ('zero',))
+            return sub * n
+        if v[0] == 'cstr':
+            return [str(b) for b in v[1]]
+        out = []
+        for et, ev in v[1]:
+            out.extend(self.flat_items(et, ev))
+        return out
 
     def fpconst(self, r, txt):
         import struct
